@@ -21,7 +21,7 @@ static vh::NamedCounter c_tasks("tasks"), c_sync("sync_calls"), c_async("async_c
     c_overlap("task_started_while_previous_on_same_vcpu_unfinished"), c_reuse("pooled_thread_reused"),
     c_pools("pools_destroyed"), c_dtor_photon("pools_destroyed_from_photon_thread"), c_dtor_os("pools_destroyed_from_os_thread"),
     c_bodies_sleep("bodies_sleeping"), c_bodies_yield("bodies_yielding"), c_bursts_gt_ring("bursts_larger_than_ring"),
-    c_drains("drains"), c_final_burst("final_burst_tasks");
+    c_drains("drains"), c_final_burst("final_burst_tasks"), c_call_interrupted("submitters_interrupted_inside_call");
 
 enum BodyKind : uint8_t { B_NOP = 0, B_YIELD, B_SLEEP };
 enum TaskKind : uint8_t { T_SYNC = 0, T_SYNC_ARG, T_ASYNC };
@@ -49,6 +49,7 @@ struct Sub {
     bool is_photon = false;
     int vcpu = -1;                          // index of the submitter vCPU (photon submitters)
     std::atomic<int> state{S_IDLE};
+    std::atomic<photon::thread*> th{nullptr};   // photon submitters: for the interrupter
     std::atomic<Rec*> cur{nullptr};         // the task of the call()/async_call() in progress
     std::atomic<uint64_t> async_submitted{0}, async_finished{0};
     std::vector<Rec*> recs;                 // owner-only during a round; read by the destroyer after the submitters' barrier
@@ -385,6 +386,7 @@ static void destroy_pool(Sub& s, vh::Rng& rng, int round) {
 }
 
 static void submitter_main(Sub& s) {
+    if (s.is_photon) s.th.store(photon::CURRENT, std::memory_order_release);
     vh::Rng rng(vh::mix(vh::args().xseed(), 100 + s.id));
     vh::progress();     // start-up (OS threads, vCPUs, photon threads) counts as progress for the stuck detector
     for (int round = 0; round < g_rounds; ++round) {
@@ -514,7 +516,24 @@ int main(int argc, char** argv) {
                 for (int i = 0; i < g_np * g_tpv; ++i)
                     if (g_subs[1 + i].vcpu == v)
                         jh.push_back(thread_enable_join(thread_create11(256 * 1024, [i] { submitter_main(g_subs[1 + i]); })));
+                // an interrupter per submitter vCPU: thread_interrupt() of a photon thread that is suspended inside
+                // call() must not make call() return before its task finished
+                std::atomic<bool> stop_intr{false};
+                auto ih = thread_enable_join(thread_create11(128 * 1024, [&, v] {
+                    vh::Rng ir(vh::mix(vh::args().xseed(), 7700 + v));
+                    while (!stop_intr.load(std::memory_order_acquire)) {
+                        for (int i = 0; i < g_np * g_tpv; ++i) {
+                            auto& sb = g_subs[1 + i];
+                            if (sb.vcpu != v || sb.state.load(vh::MO) != S_IN_CALL || !ir.chance(1, 3)) continue;
+                            if (auto t = sb.th.load(std::memory_order_acquire)) { thread_interrupt(t, EINTR); c_call_interrupted.add(); }
+                        }
+                        thread_usleep(ir.range(30, 400));
+                    }
+                }));
                 for (auto h : jh) thread_join(h);
+                for (int i = 0; i < g_np * g_tpv; ++i) if (g_subs[1 + i].vcpu == v) g_subs[1 + i].th.store(nullptr);
+                stop_intr.store(true, std::memory_order_release);
+                thread_join(ih);
             });
         });
     }
